@@ -1253,6 +1253,12 @@ func funMid(s string, start, end int) (string, error) {
 	if start < 0 {
 		start = 0
 	}
+	if start > len(s) {
+		start = len(s)
+	}
+	if end < 0 {
+		end = 0
+	}
 	if end > len(s) {
 		end = len(s)
 	}
